@@ -64,6 +64,29 @@ def _linear(cfg, B):
             _exact(B, 'linear:pL[%d]' % fc, pL[fc], alpha + beta * xf[fc], beta, xf[fc] - xc[fc - 1], smooth)
         for fc in range(1, n - 1):
             _exact(B, 'linear:pR[%d]' % fc, pR[fc], alpha + beta * xf[fc], beta, xf[fc] - xc[fc], smooth)
+    # the periodic closure: a profile that is linear THROUGH the seam (cells 0..k-1 carry the abscissa x+L, the jump sits between
+    # cells k-1 and k in mid-domain); every face state built only from cells away from the jump must be exact, the wrap gradient
+    # with the centre-to-centre distance across the seam included
+    if cfg['num'] != 'extrapol1':
+        k = 3
+        Lm = xf[n] - xf[0]
+        saw = B.array([alpha + beta * (xc[i] + (Lm if i < k else 0)) for i in range(n)])
+        rhs.rhs(fd.field.fdata(model, mesh, [saw]))
+        pL, pR = rhs.pL[0], rhs.pR[0]
+
+        def xs(fc, side):          # abscissa of the face as seen from the cell on that side
+            cell = (fc - 1) % n if side == 'L' else fc % n
+            x = xf[fc] if not (side == 'L' and fc == 0) else xf[n]
+            if side == 'R' and fc == n:
+                x = xf[0]
+            return x + (Lm if cell < k else 0), cell
+        for fc in range(n + 1):
+            for side, arr in (('L', pL), ('R', pR)):
+                x, cell = xs(fc, side)
+                if cell in (k - 1, k):          # cells whose stencil contains the jump
+                    continue
+                xcc = xc[cell] + (Lm if cell < k else 0)
+                _exact(B, 'seam-linear:p%s[%d]' % (side, fc), arr[fc], alpha + beta * x, beta, x - xcc, smooth)
     # constants: every face, including the periodic closure
     const = alpha + 0 * xc
     rhs.rhs(fd.field.fdata(model, mesh, [const]))
